@@ -27,9 +27,11 @@ UNITS = [
     open spec fn process_rel<'a, T: Queryable>(&self, state: State<'a, T>, r: State<'a, T>) -> bool {
         match *self {
             Test::Function(tf) => fn_rel(*tf, state, r),
-            _ => r.root == state.root && is_nodes(r.data) && nodes(r.data) == test_nodes(*self, cur_of(state), state.root),
+            _ => r.root == state.root && is_nodes(r.data) && nodes(r.data) == test_nodes(*self, cur_of(state), state.root)
+                && (test_singular(*self) ==> one_or_none(r.data)),
         }
     }
 """,
-         ensures=[("rel", "self.process_rel(state, r)")]),
+         ensures=[("rel", "self.process_rel(state, r)")],
+         body_prefix="proof { lemma_cur_nodes(state); }"),
 ]
